@@ -23,6 +23,18 @@ CLAIMED = {
     "C16": ("exploration", "seeded deterministic simulation: raw writer feeding a real TCP transport with exact-size envelopes swept around the read-limit boundaries under random fragmentation/coalescing; per-Receive byte accounting on the simulated connection",
             "Per Receive call the bytes taken from the connection (counted by simnet) must not exceed the limit; envelopes above twice the limit must be rejected wherever they occur; envelopes of at most limit-2 bytes must be accepted after any valid preceding traffic; sizes in between may go either way.",
             "limits 256..65536 in quick, plus the 8 MiB default in thorough; behaviour after an undecodable frame is not asserted"),
+    "C04": ("exploration", "seeded deterministic simulation: real Server + real ClientChannel over simulated tcp/tcp+tls/ws/wss/in-process links, concurrent sender tasks in both directions, slow consumers, zero-size buffers, benign link faults; multiset/order/content oracle over the quiescent history",
+            "For sessions that stay established: per direction the delivered envelopes equal the successfully sent ones as multisets, each exactly once, canonical content equal, per (sender task, kind) in send order, nothing delivered that was not sent.",
+            "envelopes come from the generator's safe value space (C01 is not claimed); wss links get no bounded send buffer (library-managed TLS, see DESIGN limits)"),
+    "C10": ("exploration", "seeded deterministic simulation: scripted cooperative and negotiation-skipping clients vs real servers whose encryption list excludes none, on TLS-capable tcp and wss; cleartext/TLS tagging of every frame and callback; control group with the premise false",
+            "With the premise true, no authentication request, no authentication callback and no establishment may be observed while the connection is unencrypted; the control group (premise false) must stay silent.",
+            "cleartext vs TLS is decided by whether the scripted peer had completed the TLS handshake when the frame arrived, and by Transport.Encryption() at callback time"),
+    "C15": ("exploration", "seeded deterministic simulation on the fake clock: one context-taking operation per run against a silent or non-reading peer, deadline or cancellation at chosen instants; latency after the context's end measured in simulated time",
+            "Each operation must return; if its context ended first, within 1 s (deadline) or 5 s (cancellation) of that end; still blocked 70 s later is reported as blocked indefinitely. Code runs in zero simulated time, so the measured latency is exactly polling/missed wake-ups.",
+            "no bounded send buffer on wss (library-managed TLS cannot park a writer in a bubble), so 'peer not reading' on wss is not explored"),
+    "C18": ("exploration", "seeded deterministic simulation: real Server with 1-3 mixed listeners and 0-5 real clients plus failing raw clients; Server.Close at any simulated instant and scheduling point; callback/ordering/census oracles; goroutine panics of lime code are violations",
+            "No lime goroutine panics; ListenAndServe returns ErrServerClosed; no listener accepts afterwards; every established client observes finished; Established exactly once and only for established sessions, before any handler; Finished exactly once afterwards for the same set; no serving task left 30 s later.",
+            "select poll order at the queue selects is a tape decision, so 'both arms ready' is explored on purpose"),
 }
 
 TODO = ["C02", "C04", "C05", "C06", "C08", "C09", "C10", "C13", "C14", "C15", "C17", "C18", "C19", "C20"]
